@@ -10,7 +10,9 @@ package pointindex
 // intermediate inside int64 (WebMercator: 2e7 m * 1e10 = 2^57.5).
 //
 //@ macro gridSpan(ix) = pow2(ix.deepestLevel) * ix.deepestRes
-//@ macro wfIndex(ix) = ix.deepestLevel <= 32 && ix.deepestSize == pow2(ix.deepestLevel) && ix.deepestRes > 0
+//@ macro wfIndex(ix) = wfIndexBase(ix) && ix.z == 0
+//@     && ix.intCentroid == arr(ix.intExtent[0] + hfloor(pixSpan(ix, 0)), ix.intExtent[1] + hfloor(pixSpan(ix, 0)))
+//@ macro wfIndexBase(ix) = ix.deepestLevel <= 32 && ix.deepestSize == pow2(ix.deepestLevel) && ix.deepestRes > 0
 //@     && 0 - 1152921504606846976 <= ix.intExtent[0] && ix.intExtent[0] <= 1152921504606846976
 //@     && 0 - 1152921504606846976 <= ix.intExtent[1] && ix.intExtent[1] <= 1152921504606846976
 //@     && gridSpan(ix) <= 1152921504606846976
@@ -24,12 +26,12 @@ package pointindex
 
 //@ func (*PointIndex).getQuadrantExtentAndCentroid
 //@   prelude arith
-//@   requires wfIndex(ix) && level <= ix.deepestLevel && x < pow2(level) && y < pow2(level)
+//@   requires wfIndexBase(ix) && level <= ix.deepestLevel && x < pow2(level) && y < pow2(level)
 //@   requires intRootExtent[0] == ix.intExtent[0] && intRootExtent[1] == ix.intExtent[1]
 //@   let span = pixSpan(ix, level)
 //@   use pow2_split(ix.deepestLevel, level)
 //@   ensures[C03,C02] result0 == arr(ix.intExtent[0] + x*span, ix.intExtent[1] + y*span, ix.intExtent[0] + (x+1)*span, ix.intExtent[1] + (y+1)*span)
-//@   ensures[C03] result1 == arr(ix.intExtent[0] + x*span + span/2, ix.intExtent[1] + y*span + span/2)
+//@   ensures[C03] result1 == arr(ix.intExtent[0] + x*span + hfloor(span), ix.intExtent[1] + y*span + hfloor(span))
 
 //@ lemma pow2_split(d Int, l Int)
 //@   prelude arith
@@ -289,7 +291,7 @@ package pointindex
 //@   ensures[C03,C14] result1 == nil ==> result0 != nil && wfIndex(result0)
 //@   ensures[C03,C08] result1 == nil ==> result0.deepestLevel == level && result0.deepestSize == pow2(level) && result0.deepestRes == res
 //@   ensures[C03] result1 == nil ==> result0.intExtent == arr(bbMinX(tileMatrixSet), bbMinY(tileMatrixSet), bbMaxX(tileMatrixSet), bbMaxY(tileMatrixSet))
-//@   ensures[C03] result1 == nil ==> result0.z == 0 && result0.intCentroid == arr(result0.intExtent[0] + pixSpan(result0, 0) / 2, result0.intExtent[1] + pixSpan(result0, 0) / 2)
+//@   ensures[C03] result1 == nil ==> result0.z == 0 && result0.intCentroid == arr(result0.intExtent[0] + hfloor(pixSpan(result0, 0)), result0.intExtent[1] + hfloor(pixSpan(result0, 0)))
 
 // DeviationStats: formats a report; what matters to validation is that it does not panic and fails when matrix 0
 // is missing. (PrintWithDecimals only formats a number; it is trusted not to panic for n >= Precision + 1.)
